@@ -169,7 +169,7 @@ pub struct RunOut {
     pub harness: Option<String>,
     pub schedule: Vec<(u16, u64, bool)>,
     pub switches: u64,
-    pub switches_by_site: [u64; 16],
+    pub switches_by_site: [u64; 32],
     pub total_yields: u64,
     pub stats: Stats,
     pub keys_compared: u64,
@@ -189,7 +189,7 @@ pub fn run_plan(plan: &Plan, env: &mut Env, corpus: &Arc<Vec<String>>, forced: O
         harness: None,
         schedule: vec![],
         switches: 0,
-        switches_by_site: [0; 16],
+        switches_by_site: [0; 32],
         total_yields: 0,
         stats: Stats::default(),
         keys_compared: 0,
@@ -615,8 +615,8 @@ pub fn cmd_l2a(args: &crate::Args) -> i32 {
                 continue;
             }
             let i: u64 = f[1].parse().unwrap_or(0);
-            let mut by_site = [0u64; 16];
-            for (k, x) in f[14].split(',').enumerate().take(16) {
+            let mut by_site = [0u64; 32];
+            for (k, x) in f[14].split(',').enumerate().take(32) {
                 by_site[k] = x.parse().unwrap_or(0);
             }
             let strategy = if let Some(m) = f[8].strip_prefix("random:") {
@@ -666,7 +666,7 @@ pub fn cmd_l2a(args: &crate::Args) -> i32 {
     let mut scheds: BTreeSet<u64> = BTreeSet::new();
     let mut nontrivial: BTreeSet<u64> = BTreeSet::new();
     let mut switches = 0u64;
-    let mut by_site = [0u64; 16];
+    let mut by_site = [0u64; 32];
     let mut yields = 0u64;
     let mut keys = 0u64;
     let mut nthreads_hist: BTreeMap<String, u64> = BTreeMap::new();
@@ -680,7 +680,7 @@ pub fn cmd_l2a(args: &crate::Args) -> i32 {
             nontrivial.insert(s.out.sched_hash);
         }
         switches += s.out.switches;
-        for k in 0..16 {
+        for k in 0..32 {
             by_site[k] += s.out.switches_by_site[k];
         }
         yields += s.out.total_yields;
@@ -828,7 +828,7 @@ pub fn cmd_l2a(args: &crate::Args) -> i32 {
         println!("HARNESS-ERROR dead probes: no context switch inside Vocoder::synthesize / MlpgAdjust::create / at op boundaries");
         exit = 2;
     }
-    let site_names = ["op boundary", "generate_step (per frame)", "Vocoder::synthesize (per sample)", "MlpgAdjust::create (per vector index)", "Models::duration (per label)", "Models::stream (per label/state)", "Models::gv (per label)", "generator: before Models::new", "generator: before duration estimation", "generator: before spectrum MLPG", "generator: before lf0 MLPG", "generator: before lpf MLPG", "generator: before SpeechGenerator::new"];
+    let site_names = ["op boundary", "generate_step (per frame)", "Vocoder::synthesize (per sample)", "MlpgAdjust::create (per vector index)", "Models::duration (per label)", "Models::stream (per label/state)", "Models::gv (per label)", "generator: before Models::new", "generator: before duration estimation", "generator: before spectrum MLPG", "generator: before lf0 MLPG", "generator: before lpf MLPG", "generator: before SpeechGenerator::new", "MlpgMatrix::solve (after factorization)", "ldl_factorization (per frame)", "GV iteration", "calc_wuw_and_wum (per frame)", "MlpgMatrix::par (GV branch entry)", "duration adjustment loop", "tree search (per node)", "label parsing (per line)", "VoiceSet::weighted (per voice)", "MlpgAdjust::create (after mask)"];
     let mut sites = J::obj();
     for (k, n) in site_names.iter().enumerate() {
         sites.put(n, J::u(by_site[k]));
